@@ -450,7 +450,7 @@ std::string run_case(Session& S, const std::string& line, uint32_t serial) {
         break;
       }
       case 'K': C.collect(true); S.step(); break;
-      case 'A': C.collect(true); S.advance_us(200000); break;       // the clock passes every pending timer (retry timer: 100 ms)
+      case 'A': C.collect(true); S.advance_us(2000000); break;      // the clock passes every pending timer (the retry delay is a tuning constant: 2 s is far beyond it)
       case 'L': {                                                   // memory pressure: the manager grants k blocks in total / back to normal
         auto* mm = torrent::runtime::memory_manager();
         if (g_saved_limit == 0) g_saved_limit = mm->m_max_memory_usage.load();
